@@ -387,9 +387,12 @@ func (pw *pureWalker) walk(g *ssa.Function, freshSet map[int]bool, depth int) {
 	}
 }
 
-// returnsFresh: every non-nil result 0 of fn is an allocation of fn.
-func returnsFresh(fn *ssa.Function) bool {
-	if len(fn.Blocks) == 0 || fn.Signature.Results().Len() == 0 {
+// returnsFresh: every non-nil result 0 of fn is an allocation of fn's own activation - directly, or as the result of
+// a constructor-like helper with the same property (newThing() { t := new(T); t.Init(); return t }).
+func returnsFresh(fn *ssa.Function) bool { return returnsFreshDepth(fn, 0) }
+
+func returnsFreshDepth(fn *ssa.Function, depth int) bool {
+	if fn == nil || depth > 3 || len(fn.Blocks) == 0 || fn.Signature.Results().Len() == 0 {
 		return false
 	}
 	n := 0
@@ -402,7 +405,13 @@ func returnsFresh(fn *ssa.Function) bool {
 			if ct, ok := r.(*ssa.ChangeType); ok {
 				r = core.Strip(ct.X)
 			}
-			if _, ok := r.(*ssa.Alloc); !ok {
+			switch x := r.(type) {
+			case *ssa.Alloc:
+			case *ssa.Call:
+				if !returnsFreshDepth(x.Call.StaticCallee(), depth+1) {
+					return false
+				}
+			default:
 				return false
 			}
 			n++
